@@ -58,14 +58,90 @@ ASSUMPTIONS = ['FIFO "no overtaking by a fresh request" is only claimed for a po
                'hand-off order, exclusivity, bounds and size accounting are claimed for every history',
                'connections do not answer synchronously inside AsyncProcessRequest',
                'Open() of the pool itself (_OpenImpl) is exercised with connections whose Open() completes at once']
-RULE = ('scripts from the seeded generator plus every op sequence up to a small length for (1,1,1),(0,2,1),(1,2,2); '
+RULE = ('scripts from the seeded generator (one in five directed at a deadline expiring during the connect made for '
+        'that request, min in {0,1,2}) plus every op sequence up to a small length for (1,1,1),(0,2,1),(1,2,2) and, one '
+        'shorter, (2,3,1); '
         'distinct = distinct (cfg, op list); non-trivial = reaches a queued waiter being skipped, a dead connection '
         'discarded from the cache or found on release, a double release before hand-off, MaxWaiters, Close, an arrival '
         'while another caller is blocked in a connect, a failed connect, or a timer firing during a connect')
 
 
 # ------------------------------------------------------------------ generation
+def gen_connect_timeout(rng, tier):
+    """directed: the deadline of a request expires while the pool is connecting for that very request
+    (min in {0,1,2}, several max), the connect then ends (either outcome), and traffic goes on"""
+    mn = rng.choice([0, 1, 2])
+    mx = rng.choice([1, 2, 2, 3, 4])
+    mq = rng.choice([0, 1, 2, 3, INF])
+    mode = 'step' if rng.random() < 0.7 else 'hub'
+    ops = []
+    ncalls = 0
+    opened = rng.random() < 0.5
+    if opened:
+        ops.append(['open', True])
+    # occupy some connections (this also empties the cache, so that the next request has to connect)
+    busy = rng.randrange(0, mx)
+    if opened and mn > 0 and busy == 0 and mx > 1:
+        busy = 1
+    for _ in range(busy):
+        ops.append(['req', True, False, False])
+        ncalls += 1
+    if opened and mn > 0 and busy == 0:
+        # max = 1 and the only connection is cached: it dies while idle, the next _Get discards it and connects anew
+        ops.append(['die', 0])
+    victims = []
+    nvict = 1 if rng.random() < 0.7 else 2
+    for _ in range(nvict):
+        ops.append(['req', True, True, True])
+        victims.append(ncalls)
+        ncalls += 1
+    others = []
+    for _ in range(rng.randrange(0, 3)):       # arrivals while the connect is in flight
+        ops.append(['req', True, rng.random() < 0.3, rng.random() < 0.5])
+        others.append(ncalls)
+        ncalls += 1
+    for v in victims:
+        if rng.random() < 0.9:
+            ops.append(['to', v])
+        if rng.random() < 0.3:
+            ops.append(rng.choice([['run'], ['req', True, False, False], ['die', rng.randrange(0, 3)]]))
+            if ops[-1][0] == 'req':
+                others.append(ncalls)
+                ncalls += 1
+    for _ in range(nvict + 1):
+        ops.append(['openedany', 0, rng.random() < 0.85])
+        if rng.random() < 0.3:
+            ops.append(['run'])
+    # further traffic
+    live = list(range(ncalls))
+    for _ in range(rng.randrange(3, 14)):
+        r = rng.random()
+        if r < 0.35:
+            ops.append(['req', True, False, rng.random() < 0.2])
+            live.append(ncalls)
+            ncalls += 1
+        elif r < 0.75 and live:
+            ops.append(['resp', live.pop(0) if rng.random() < 0.7 else rng.choice(live)])
+        elif r < 0.8:
+            ops.append(['openedany', 0, True])
+        else:
+            ops.append(['run'])
+    if rng.random() < 0.8:     # let the traffic stop
+        ops += [['openedany', 0, True], ['openedany', 0, True]]
+        for _rep in range(2):
+            for c in range(ncalls):
+                ops.append(['resp', c])
+                ops.append(['run'])
+        ops += [['run'], ['run']]
+        if rng.random() < 0.5:   # and come back: the whole capacity must still be usable
+            for _ in range(mx):
+                ops.append(['req', True, False, False])
+    return {'min': mn, 'max': mx, 'maxq': mq, 'mode': mode, 'ops': ops}
+
+
 def gen_script(rng, tier):
+    if rng.random() < 0.2:
+        return gen_connect_timeout(rng, tier)
     mn = rng.choice([0, 0, 1, 1, 2, 3])
     mx = rng.choice([1, 1, 2, 2, 3, 4])
     mq = rng.choice([0, 1, 1, 2, 3, INF, INF])
@@ -177,8 +253,8 @@ def exhaustive(tier, shard, shards):
                 nlat -= 1
         return True
 
-    for cfg in ((1, 1, 1), (0, 2, 1), (1, 2, 2)):
-        for n in range(1, L + 1):
+    for cfg in ((1, 1, 1), (0, 2, 1), (1, 2, 2), (2, 3, 1)):
+        for n in range(1, (L if cfg[0] < 2 else L - 1) + 1):
             for seq in itertools.product(range(len(alphabet)), repeat=n):
                 if seq[0] not in (0, 1, 12, 13) or not sensible(seq):
                     continue
@@ -253,6 +329,8 @@ def run_script(script):
     evs = []                 # events of the operation in progress
     st = {'pending_op': None, 'next_ok': True, 'next_lat': False, 'created': None}
     connecting = []          # sink ids whose Open() is pending, in creation order
+    conn_call = {}           # sink id -> the call whose greenlet is blocked in its Open().wait()
+    orphaned = set()         # sink ids whose connecting call was answered by its timer meanwhile
     sinks = []               # HSink by id
     calls = []               # dict(stack, term, msg, sink) by id
     stack_ids = {}           # id(stack) -> call id
@@ -446,6 +524,7 @@ def run_script(script):
                             raise RuntimeError('request greenlet blocked somewhere else')
                         evs.append(['connecting', sid, c])
                         connecting.append(sid)
+                        conn_call[sid] = c
                         tags.add('connecting')
                 else:
                     if connecting:
@@ -479,6 +558,13 @@ def run_script(script):
                     tags.add('connect-failed')
                 rt.drain()
                 flush_pending()
+                conn_call.pop(sid, None)
+                if sid in orphaned:
+                    # the scenario of "capacity leaked": the deadline expired while the pool was connecting
+                    tags.add('connect-timeout-opened')
+                    tags.add('cto-min%d' % min(script['min'], 3))
+                    tags.add('cto-max%d' % min(script['max'], 4))
+                    st['cto_step'] = len(steps)
                 if any(cl['sink'] == sid and cl['done'] for cl in calls):
                     tags.add('zombie')
             elif kind == 'resp':
@@ -505,6 +591,10 @@ def run_script(script):
                 if not calls[c]['done']:
                     raise RuntimeError('timer of call %d did not fire' % c)
                 tags.add('waiter-timeout' if was_waiting else 'lent-timeout')
+                for sid_, c_ in conn_call.items():
+                    if c_ == c:
+                        orphaned.add(sid_)
+                        tags.add('connect-timeout')
             elif kind == 'die':
                 sid = o[1]
                 if not (0 <= sid < len(sinks)):
@@ -569,6 +659,11 @@ def run_script(script):
         tags.add('skip-candidate')
     if len([1 for s in steps if s[0].startswith('die')]) and 'closed-conn' in tags:
         tags.add('dead-conn')
+    if 'cto_step' in st:
+        # further traffic after the connect of a timed-out caller ended: another call is started / the pool idles
+        later = steps[st['cto_step']:]
+        if any((op_text.startswith('request') or op_text == 'run') and '(sent ' in obs for op_text, obs in later):
+            tags.add('connect-timeout-followup')
     tags.add('mode-' + mode)
     errs = hub_errs
     if errs:
@@ -584,4 +679,4 @@ def nontrivial(case):
     t = set(case.get('tags', []))
     return bool(t & {'skip-candidate', 'waiter-timeout', 'dead-conn', 'handoff-fallthrough', 'maxwaiters',
                      'pool-closed', 'service-closed', 'late-reply', 'lent-timeout', 'arrival-during-connect',
-                     'connect-failed', 'zombie', 'open-failed'})
+                     'connect-failed', 'zombie', 'open-failed', 'connect-timeout'})
